@@ -26,7 +26,7 @@ CHECKS = {
                 text="OrderingList._order_entity, reorder (loop invariant: prefix ordered), append, insert, pop, remove, __delitem__ are proved: the list-model postcondition on the sequence and the representation invariant position(self[i]) == ordering_func(i) restored, for lists of any length. Bounded complement: operation sequences on bound and un-instrumented OrderingLists and association proxies against list/set/dict models.",
                 note="ghost position field; entities distinct; __setitem__ / inherited list methods / proxies bounded only (several known findings)"),
     "C52": dict(level="proof", technique=PROOF_TECH, design="DESIGN.md §5 C52",
-                text="ScopedRegistry.__init__/__call__/has/set/clear are proved against the map view (the current scope's entry is returned or created exactly once, also when another thread wins the race while the factory runs; every other scope's entry and the key order untouched); ThreadLocalRegistry.__init__/__call__/has/set/clear against the current thread's slot (may-be-absent attribute); scoped_session.__init__ (a scopefunc gives a ScopedRegistry, none gives thread-local storage) and remove() for both registry kinds (the current Session closed and discarded, no other Session touched, none created). Bounded complement: real threads - sequential short-lived threads with recycled idents, every interleaving of call,call,remove,call over 2 threads and a prefix over 3, thread and scopefunc scopes.",
+                text="ScopedRegistry.__init__/__call__/has/set/clear are proved against the map view (the current scope's entry is returned or created exactly once, also when another thread wins the race while the factory runs; every other scope's entry and the key order untouched); ThreadLocalRegistry.__init__/__call__/has/set/clear against the current thread's slot (may-be-absent attribute); scoped_session.__init__ (a scopefunc gives a ScopedRegistry, none gives thread-local storage) remove() for both registry kinds (the current Session closed and discarded, no other Session touched, none created) and __call__(**kw) on the thread-local registry (the scope's Session, the same on repeated calls; configuring arguments are refused once a Session exists). Bounded complement: real threads - sequential short-lived threads with recycled idents, every interleaving of call,call,remove,call over 2 threads and a prefix over 3, thread and scopefunc scopes.",
                 note="scopefunc pure within a call; interference only at the factory call (dict operations atomic in CPython: assumed); threading.local semantics trusted; Session.close abstract (ghost flag); scoped_session.__call__(**kw) and proxy methods bounded only"),
     "C54": dict(level="proof", technique=PROOF_TECH, design="DESIGN.md §5 C54",
                 text="every OrderedSet method and operator, unique_list and IdentitySet (IdentitySet operand) is proved from the pure-Python source against 'set semantics with first-insertion order' (views via the spec functions addall/filt), representation invariants and frames included; the two known defects are reported as KNOWN-FINDING with every input outside their class proved. immutabledict: _union_other (behind union / merge_with) returns an immutabledict holding, for every key, the value of the last argument that has it (else self's), modifies nothing, and every mutator refuses with TypeError. LRUCache: get/[]/[]=/del and _manage_size (lock given back on every exit, size bound, LRU retention). Bounded complement: pure and compiled builds against reference models.",
